@@ -4,6 +4,8 @@ import (
 	"context"
 	"database/sql/driver"
 	"fmt"
+	"net/http/httptest"
+	"net/url"
 	"os"
 	"regexp"
 	"strconv"
@@ -11,7 +13,9 @@ import (
 	"sync"
 	"time"
 
+	"github.com/gorilla/mux"
 	rmodel "github.com/metrico/qryn/reader/model"
+	rrouter "github.com/metrico/qryn/reader/router"
 	rservice "github.com/metrico/qryn/reader/service"
 	"verif/harness/fakes"
 	"verif/harness/h"
@@ -729,4 +733,126 @@ func c13ModelTempoLegacy(r *h.Result, rng *h.Rng, n int) error {
 		}
 	}
 	return r.Compare("model-tempo-legacy", ops, impl, cases)
+}
+
+// ---- http-tempo: the same tie through the router and the controller (parameter handling included)
+
+func c13HTTPTempo(r *h.Result, rng *h.Rng, n int) error {
+	r.Stream("http-tempo: GET /api/search?tags=…&start=…&end=…&limit=…&minDuration=…&maxDuration=… through the real router + TempoController.Search over the scripted database in a generated version state: the statement sent vs Tempo.planSearch for the window [start·10⁹, end·10⁹] (byte-equal): the controller hands the window on unshrunk")
+	c20Setup()
+	var ops, impl []string
+	var cases []any
+	for i := 0; i < n; i++ {
+		q := c13tGenReq(rng)
+		if !q.HasTags {
+			q.Text = ""
+		}
+		// what the URL can say: whole seconds, Go durations
+		q.From = q.From / 1e9
+		q.To = q.To / 1e9
+		if q.From <= 0 {
+			q.From = 1700000000 + int64(rng.Intn(1000000))
+		}
+		if q.To <= 0 {
+			q.To = q.From + int64(rng.Range(1, 100000))
+		}
+		startS, endS := q.From, q.To
+		q.From, q.To = startS*1e9, endS*1e9
+		if q.MinDur < 0 {
+			q.MinDur = 0
+		}
+		if q.MaxDur < 0 {
+			q.MaxDur = 0
+		}
+		limitParam := strconv.Itoa(q.Limit)
+		if rng.Chance(30) {
+			limitParam, q.Limit = "", 10
+		}
+		v := c13tGenVer(rng, q)
+		var mtx sync.Mutex
+		var sqls []string
+		reg := fakes.NewDBRegistry(&fakes.CallLog{}, func(s string) ([]string, [][]driver.Value, error) {
+			mtx.Lock()
+			defer mtx.Unlock()
+			switch {
+			case strings.HasPrefix(s, "SELECT argMax(name, inserted_at)"):
+				var rows [][]driver.Value
+				for _, x := range v.Rows {
+					rows = append(rows, []driver.Value{x[0], x[1]})
+				}
+				return []string{"_name", "_value"}, rows, nil
+			case strings.TrimSpace(s) == "SHOW TABLES":
+				var rows [][]driver.Value
+				for _, t := range v.Tables {
+					rows = append(rows, []driver.Value{t})
+				}
+				return []string{"name"}, rows, nil
+			}
+			sqls = append(sqls, s)
+			return nil, nil, nil
+		})
+		c13tMtx.Lock()
+		c13tSeq++
+		name := fmt.Sprintf("c13h-%d", c13tSeq)
+		c13tMtx.Unlock()
+		reg.M.Session = &c13tNamed{DB: reg.M.Session.(*fakes.DB), name: name}
+		reg.M.Config.Name = q.DB
+		if q.Cluster {
+			reg.M.Config.ClusterName = "c1"
+		}
+		app := mux.NewRouter()
+		var ireg rmodel.IDBRegistry = reg
+		rrouter.RouteTempo(app, ireg)
+		vals := url.Values{"start": {strconv.FormatInt(startS, 10)}, "end": {strconv.FormatInt(endS, 10)}}
+		if q.Text != "" {
+			vals.Set("tags", q.Text)
+		}
+		if limitParam != "" {
+			vals.Set("limit", limitParam)
+		}
+		if q.MinDur > 0 {
+			vals.Set("minDuration", time.Duration(q.MinDur).String())
+		}
+		if q.MaxDur > 0 {
+			vals.Set("maxDuration", time.Duration(q.MaxDur).String())
+		}
+		path := h.Pick(rng, []string{"/api/search", "/tempo/api/search"})
+		w := httptest.NewRecorder()
+		func() {
+			saved := os.Stdout
+			if dn, e := os.OpenFile(os.DevNull, os.O_WRONLY, 0); e == nil {
+				os.Stdout = dn
+				defer func() { os.Stdout = saved; dn.Close() }()
+			}
+			app.ServeHTTP(w, httptest.NewRequest("GET", path+"?"+vals.Encode(), nil))
+		}()
+		mtx.Lock()
+		got := append([]string{}, sqls...)
+		mtx.Unlock()
+		r.Count(fmt.Sprintf("http-tempo:status=%d", w.Code))
+		if len(got) != 1 {
+			r.Disagree("http-tempo", path+"?"+vals.Encode(), fmt.Sprintf("%d statements, status %d", len(got), w.Code), "one statement", map[string]any{"request": q, "version": v})
+			continue
+		}
+		ops = append(ops, "c13tsearch "+q.ser()+" "+v.ser())
+		impl = append(impl, h.Hex([]byte(got[0])))
+		cases = append(cases, map[string]any{"stream": "http-tempo", "url": path + "?" + vals.Encode(), "request": q, "version": v, "sql": got[0]})
+		r.Case("http-tempo:"+vals.Encode()+fmt.Sprint(v), true)
+		r.Count("http-tempo:version=" + v.Kind)
+	}
+	ans, err := h.Model(ops)
+	if err != nil {
+		return err
+	}
+	for i, a := range ans {
+		f := strings.Fields(a)
+		if len(f) != 4 || f[0] != impl[i] {
+			got := a
+			if len(f) > 0 {
+				got = f[0]
+			}
+			r.Disagree("http-tempo", ops[i], impl[i], got, cases[i])
+		}
+	}
+	return nil
 }
